@@ -1,9 +1,712 @@
-(* props/C05.v — creation metadata obligations (see CreateJobProofs.v for the lemmas). *)
+(* props/C05.v — "A created Job is the template with creation-time substitutions, nothing else".
+
+   Model: CreateJob.v ([inst] = instantiate_model driven by the creation metadata of a schema,
+   [symtab_of] = the symbol table create_job builds).  All theorems are for ALL instance trees, symbol
+   tables and fuels (unbounded); those about the 2023-09 classes are about Generated.schema, i.e. the
+   metadata read from the live classes by tools/regen.py.  Lemmas: CreateJobProofs.v.
+
+     C05_meta_table, C05_trivial_classes      the metadata itself (by computation)
+     C05_trivial_identity                     generic: trivial metadata => carried over unchanged
+     C05_trivial_unchanged, C05_script_unchanged   ... for the live schema
+     C05_inst_unfold, C05_gen_*, C05_shape_*  the result of [inst], class by class, as an exact field list
+     C05_keyed_distinct                       the list -> dictionary reshaping
+     C05_symtab                               the symbol table
+     C05_no_reexpand*                         resolved text = one-pass substitution on the original *)
 From Coq Require Import List NArith ZArith String.
 Import ListNotations.
-Require Import OJD.Base OJD.Json OJD.Schema OJD.Generated OJD.CreateJob OJD.CreateJobProofs.
+Require Import OJD.Base OJD.Lexer OJD.Json OJD.Schema OJD.Generated OJD.CreateJob OJD.CreateJobProofs.
+Require Import OJD.FormatStr OJD.FormatStrSpec.
 Local Open Scope string_scope.
+Local Open Scope list_scope.
+
+(* ------------------------------------------------------------------ the metadata *)
 
 Theorem C05_meta_table : nontrivial_jcm Generated.schema = expected_jcm_table.
 Proof. exact meta_table_ok. Qed.
 Print Assumptions C05_meta_table.
+
+(* every other class has trivial metadata: nothing resolved, excluded, renamed, reshaped, added,
+   same class *)
+Theorem C05_trivial_classes :
+  trivial_classes Generated.schema =
+  [ "CancelationMethodNotifyThenTerminate"; "CancelationMethodTerminate"; "Action"; "StepActions";
+    "EnvironmentActions"; "EmbeddedFileText"; "StepScript"; "EnvironmentScript";
+    "RangeListTaskParameterDefinition"; "IntRangeListTaskParameterDefinition";
+    "FloatRangeListTaskParameterDefinition"; "RangeExpressionTaskParameterDefinition";
+    "StepParameterSpace"; "Environment"; "JobParameter";
+    "JobStringParameterDefinitionUserInterface"; "JobPathParameterDefinitionFileFilter";
+    "JobPathParameterDefinitionUserInterface"; "JobIntParameterDefinitionUserInterface";
+    "JobFloatParameterDefinitionUserInterface"; "AmountRequirement"; "AttributeRequirement";
+    "HostRequirements"; "StepDependency"; "Step"; "Job"; "EnvironmentTemplate" ].
+Proof. exact trivial_classes_ok. Qed.
+Print Assumptions C05_trivial_classes.
+
+(* in particular the classes that make up scripts, environments and dependencies — the home of every
+   session- and task-scope format string *)
+Theorem C05_carried_trivial :
+  incl [ "StepScript"; "StepActions"; "Action"; "CancelationMethodNotifyThenTerminate";
+         "CancelationMethodTerminate"; "EmbeddedFileText"; "Environment"; "EnvironmentScript";
+         "EnvironmentActions"; "StepDependency" ]
+       (trivial_classes Generated.schema).
+Proof. exact carried_are_trivial. Qed.
+Print Assumptions C05_carried_trivial.
+
+(* ------------------------------------------------------------------ "everything else is unchanged" *)
+
+(* generic, any schema: an instance tree all of whose classes (at any depth, through lists,
+   dictionaries and nested models) have trivial metadata is returned unchanged *)
+Theorem C05_trivial_identity : forall SC resolve sigma fuel v,
+  (forall c, In c (classes_in v) -> jcm_is_trivial (jcm_of SC c) = true) ->
+  mval_depth v < fuel ->
+  inst SC resolve sigma fuel v = Ok v.
+Proof. exact trivial_identity. Qed.
+Print Assumptions C05_trivial_identity.
+
+Theorem C05_trivial_unchanged : forall resolve sigma fuel v,
+  incl (classes_in v) (trivial_classes Generated.schema) ->
+  mval_depth v < fuel ->
+  inst Generated.schema resolve sigma fuel v = Ok v.
+Proof. exact trivial_unchanged. Qed.
+Print Assumptions C05_trivial_unchanged.
+
+(* scripts, environments, dependencies: whatever the symbol table and the resolver *)
+Theorem C05_script_unchanged : forall resolve sigma fuel v,
+  incl (classes_in v) carried_classes ->
+  mval_depth v < fuel ->
+  inst Generated.schema resolve sigma fuel v = Ok v.
+Proof. exact carried_unchanged. Qed.
+Print Assumptions C05_script_unchanged.
+
+(* ------------------------------------------------------------------ one step of [inst] *)
+
+Theorem C05_inst_unfold : forall SC resolve sigma f v,
+  inst SC resolve sigma (S f) v =
+  match v with
+  | MModel c fields => inst_model resolve sigma (inst SC resolve sigma f) (jcm_of SC c) c fields
+  | _ => Ok v
+  end.
+Proof. exact inst_S. Qed.
+Print Assumptions C05_inst_unfold.
+
+Theorem C05_jcm_of_generated :
+  jcm_of Generated.schema "JobTemplate" = jcm_JobTemplate
+  /\ jcm_of Generated.schema "StepTemplate" = jcm_StepTemplate
+  /\ jcm_of Generated.schema "JobStringParameterDefinition" = jcm_JobStringParam
+  /\ jcm_of Generated.schema "JobPathParameterDefinition" = jcm_JobPathParam
+  /\ jcm_of Generated.schema "JobIntParameterDefinition" = jcm_JobNumParam
+  /\ jcm_of Generated.schema "JobFloatParameterDefinition" = jcm_JobNumParam
+  /\ jcm_of Generated.schema "IntTaskParameterDefinition" = jcm_IntTaskParam
+  /\ jcm_of Generated.schema "FloatTaskParameterDefinition" = jcm_TaskParam "FloatRangeListTaskParameterDefinition"
+  /\ jcm_of Generated.schema "StringTaskParameterDefinition" = jcm_TaskParam "RangeListTaskParameterDefinition"
+  /\ jcm_of Generated.schema "PathTaskParameterDefinition" = jcm_TaskParam "RangeListTaskParameterDefinition"
+  /\ jcm_of Generated.schema "StepParameterSpaceDefinition" = jcm_ParamSpace
+  /\ jcm_of Generated.schema "AmountRequirementTemplate" = jcm_Amount
+  /\ jcm_of Generated.schema "AttributeRequirementTemplate" = jcm_Attribute
+  /\ jcm_of Generated.schema "HostRequirementsTemplate" = jcm_HostReq.
+Proof. exact jcm_of_generated. Qed.
+Print Assumptions C05_jcm_of_generated.
+
+(* ------------------------------------------------------------------ shapes, arbitrary field values:
+   which fields survive, under which name, in which order, in which class.  [inst_val] is the
+   generic treatment of one field value (list / dict / single) *)
+
+Theorem C05_gen_JobTemplate : forall resolve sigma rec sv nm st d pd je ss,
+  inst_model resolve sigma rec jcm_JobTemplate "JobTemplate"
+    [("specificationVersion", sv); ("name", nm); ("steps", st); ("description", d);
+     ("parameterDefinitions", pd); ("jobEnvironments", je); ("schemaStr", ss)]
+  = do n <- inst_val resolve sigma rec jcm_JobTemplate "name" nm;
+    do s <- inst_val resolve sigma rec jcm_JobTemplate "steps" st;
+    do d' <- inst_val resolve sigma rec jcm_JobTemplate "description" d;
+    do p <- inst_val resolve sigma rec jcm_JobTemplate "parameterDefinitions" pd;
+    do e <- inst_val resolve sigma rec jcm_JobTemplate "jobEnvironments" je;
+    Ok (MModel "Job" [("name", n); ("steps", s); ("description", d'); ("parameters", p); ("jobEnvironments", e)]).
+Proof. exact gen_JobTemplate. Qed.
+Print Assumptions C05_gen_JobTemplate.
+
+Theorem C05_gen_StepTemplate : forall resolve sigma rec n d sc se ps hr dp,
+  inst_model resolve sigma rec jcm_StepTemplate "StepTemplate"
+    [("name", n); ("description", d); ("script", sc); ("stepEnvironments", se);
+     ("parameterSpace", ps); ("hostRequirements", hr); ("dependencies", dp)]
+  = do n' <- inst_val resolve sigma rec jcm_StepTemplate "name" n;
+    do d' <- inst_val resolve sigma rec jcm_StepTemplate "description" d;
+    do sc' <- inst_val resolve sigma rec jcm_StepTemplate "script" sc;
+    do se' <- inst_val resolve sigma rec jcm_StepTemplate "stepEnvironments" se;
+    do ps' <- inst_val resolve sigma rec jcm_StepTemplate "parameterSpace" ps;
+    do hr' <- inst_val resolve sigma rec jcm_StepTemplate "hostRequirements" hr;
+    do dp' <- inst_val resolve sigma rec jcm_StepTemplate "dependencies" dp;
+    Ok (MModel "Step" [("name", n'); ("description", d'); ("script", sc'); ("stepEnvironments", se');
+                       ("parameterSpace", ps'); ("hostRequirements", hr'); ("dependencies", dp')]).
+Proof. exact gen_StepTemplate. Qed.
+Print Assumptions C05_gen_StepTemplate.
+
+(* the excluded fields (ui, limits, allowed values, default, ...) are never even looked at *)
+Theorem C05_gen_JobStringParam : forall resolve sigma rec n t ui d mn mx av df,
+  inst_model resolve sigma rec jcm_JobStringParam "JobStringParameterDefinition"
+    [("name", MStr n); ("type", t); ("userInterface", ui); ("description", d);
+     ("minLength", mn); ("maxLength", mx); ("allowedValues", av); ("default", df)]
+  = do t' <- inst_val resolve sigma rec jcm_JobStringParam "type" t;
+    do d' <- inst_val resolve sigma rec jcm_JobStringParam "description" d;
+    with_value sigma n [("type", t'); ("description", d')].
+Proof. exact gen_JobStringParam. Qed.
+Print Assumptions C05_gen_JobStringParam.
+
+Theorem C05_gen_JobPathParam : forall resolve sigma rec n t ot dfl ui d mn mx av df,
+  inst_model resolve sigma rec jcm_JobPathParam "JobPathParameterDefinition"
+    [("name", MStr n); ("type", t); ("objectType", ot); ("dataFlow", dfl); ("userInterface", ui);
+     ("description", d); ("minLength", mn); ("maxLength", mx); ("allowedValues", av); ("default", df)]
+  = do t' <- inst_val resolve sigma rec jcm_JobPathParam "type" t;
+    do d' <- inst_val resolve sigma rec jcm_JobPathParam "description" d;
+    with_value sigma n [("type", t'); ("description", d')].
+Proof. exact gen_JobPathParam. Qed.
+Print Assumptions C05_gen_JobPathParam.
+
+Theorem C05_gen_JobNumParam : forall resolve sigma rec c n t ui d mn mx av df,
+  inst_model resolve sigma rec jcm_JobNumParam c
+    [("name", MStr n); ("type", t); ("userInterface", ui); ("description", d);
+     ("minValue", mn); ("maxValue", mx); ("allowedValues", av); ("default", df)]
+  = do t' <- inst_val resolve sigma rec jcm_JobNumParam "type" t;
+    do d' <- inst_val resolve sigma rec jcm_JobNumParam "description" d;
+    with_value sigma n [("type", t'); ("description", d')].
+Proof. exact gen_JobNumParam. Qed.
+Print Assumptions C05_gen_JobNumParam.
+
+Theorem C05_gen_IntTaskParam : forall resolve sigma rec nm t r,
+  inst_model resolve sigma rec jcm_IntTaskParam "IntTaskParameterDefinition" [("name", nm); ("type", t); ("range", r)]
+  = do t' <- inst_val resolve sigma rec jcm_IntTaskParam "type" t;
+    do r' <- inst_val resolve sigma rec jcm_IntTaskParam "range" r;
+    Ok (MModel (match r with
+                | MFmt _ => "RangeExpressionTaskParameterDefinition"
+                | _ => "IntRangeListTaskParameterDefinition"
+                end) [("type", t'); ("range", r')]).
+Proof. exact gen_IntTaskParam. Qed.
+Print Assumptions C05_gen_IntTaskParam.
+
+Theorem C05_gen_TaskParam : forall resolve sigma rec target c nm t r,
+  inst_model resolve sigma rec (jcm_TaskParam target) c [("name", nm); ("type", t); ("range", r)]
+  = do t' <- inst_val resolve sigma rec (jcm_TaskParam target) "type" t;
+    do r' <- inst_val resolve sigma rec (jcm_TaskParam target) "range" r;
+    Ok (MModel target [("type", t'); ("range", r')]).
+Proof. exact gen_TaskParam. Qed.
+Print Assumptions C05_gen_TaskParam.
+
+Theorem C05_gen_ParamSpace : forall resolve sigma rec tpd cb,
+  inst_model resolve sigma rec jcm_ParamSpace "StepParameterSpaceDefinition"
+    [("taskParameterDefinitions", tpd); ("combination", cb)]
+  = do t <- inst_val resolve sigma rec jcm_ParamSpace "taskParameterDefinitions" tpd;
+    do c <- inst_val resolve sigma rec jcm_ParamSpace "combination" cb;
+    Ok (MModel "StepParameterSpace" [("taskParameterDefinitions", t); ("combination", c)]).
+Proof. exact gen_ParamSpace. Qed.
+Print Assumptions C05_gen_ParamSpace.
+
+Theorem C05_gen_Amount : forall resolve sigma rec nm a b,
+  inst_model resolve sigma rec jcm_Amount "AmountRequirementTemplate" [("name", nm); ("min", a); ("max", b)]
+  = do n <- inst_val resolve sigma rec jcm_Amount "name" nm;
+    do a' <- inst_val resolve sigma rec jcm_Amount "min" a;
+    do b' <- inst_val resolve sigma rec jcm_Amount "max" b;
+    Ok (MModel "AmountRequirement" [("name", n); ("min", a'); ("max", b')]).
+Proof. exact gen_Amount. Qed.
+Print Assumptions C05_gen_Amount.
+
+Theorem C05_gen_Attribute : forall resolve sigma rec nm any all,
+  inst_model resolve sigma rec jcm_Attribute "AttributeRequirementTemplate" [("name", nm); ("anyOf", any); ("allOf", all)]
+  = do n <- inst_val resolve sigma rec jcm_Attribute "name" nm;
+    do a' <- inst_val resolve sigma rec jcm_Attribute "anyOf" any;
+    do b' <- inst_val resolve sigma rec jcm_Attribute "allOf" all;
+    Ok (MModel "AttributeRequirement" [("name", n); ("anyOf", a'); ("allOf", b')]).
+Proof. exact gen_Attribute. Qed.
+Print Assumptions C05_gen_Attribute.
+
+Theorem C05_gen_HostReq : forall resolve sigma rec am at_,
+  inst_model resolve sigma rec jcm_HostReq "HostRequirementsTemplate" [("amounts", am); ("attributes", at_)]
+  = do a <- inst_val resolve sigma rec jcm_HostReq "amounts" am;
+    do b <- inst_val resolve sigma rec jcm_HostReq "attributes" at_;
+    Ok (MModel "HostRequirements" [("amounts", a); ("attributes", b)]).
+Proof. exact gen_HostReq. Qed.
+Print Assumptions C05_gen_HostReq.
+
+(* an absent (None) field stays None whatever the metadata *)
+Theorem C05_absent_stays_absent : forall resolve sigma rec j fn,
+  inst_val resolve sigma rec j fn MNone = Ok MNone.
+Proof. exact inst_val_none. Qed.
+Print Assumptions C05_absent_stays_absent.
+
+(* ------------------------------------------------------------------ shapes, well-shaped values.
+   leaf = not a list / dict / model; single = not a list / dict; opt_list = None or a list.
+   elems = instantiate elementwise; res_elem = resolve a format string, instantiate a model;
+   keyed = list -> dictionary keyed by the named attribute. *)
+
+Theorem C05_shape_JobTemplate : forall resolve sigma f sv s st d pd je ss,
+  opt_list st = true -> leaf d = true -> opt_list pd = true -> opt_list je = true ->
+  inst Generated.schema resolve sigma (S f)
+       (MModel "JobTemplate"
+          [("specificationVersion", sv); ("name", MFmt s); ("steps", st); ("description", d);
+           ("parameterDefinitions", pd); ("jobEnvironments", je); ("schemaStr", ss)])
+  = do n <- resolve sigma s;
+    do st' <- elems (inst Generated.schema resolve sigma f) st;
+    do p <- keyed (inst Generated.schema resolve sigma f) "name" pd;
+    do e <- elems (inst Generated.schema resolve sigma f) je;
+    Ok (MModel "Job" [("name", MStr n); ("steps", st'); ("description", d); ("parameters", p);
+                      ("jobEnvironments", e)]).
+Proof. exact shape_JobTemplate. Qed.
+Print Assumptions C05_shape_JobTemplate.
+
+(* job environments (lists of carried classes) are unchanged *)
+Theorem C05_elems_unchanged : forall resolve sigma f x,
+  incl (classes_in x) (trivial_classes Generated.schema) -> mval_depth x <= f ->
+  elems (inst Generated.schema resolve sigma f) x = Ok x.
+Proof. exact elems_unchanged. Qed.
+Print Assumptions C05_elems_unchanged.
+
+Theorem C05_shape_StepTemplate : forall resolve sigma f n d sc se ps hr dp,
+  leaf n = true -> leaf d = true -> single sc = true -> opt_list se = true ->
+  single ps = true -> single hr = true -> opt_list dp = true ->
+  inst Generated.schema resolve sigma (S f)
+       (MModel "StepTemplate"
+          [("name", n); ("description", d); ("script", sc); ("stepEnvironments", se);
+           ("parameterSpace", ps); ("hostRequirements", hr); ("dependencies", dp)])
+  = do sc' <- inst_elem (inst Generated.schema resolve sigma f) sc;
+    do se' <- elems (inst Generated.schema resolve sigma f) se;
+    do ps' <- inst_elem (inst Generated.schema resolve sigma f) ps;
+    do hr' <- inst_elem (inst Generated.schema resolve sigma f) hr;
+    do dp' <- elems (inst Generated.schema resolve sigma f) dp;
+    Ok (MModel "Step" [("name", n); ("description", d); ("script", sc'); ("stepEnvironments", se');
+                       ("parameterSpace", ps'); ("hostRequirements", hr'); ("dependencies", dp')]).
+Proof. exact shape_StepTemplate. Qed.
+Print Assumptions C05_shape_StepTemplate.
+
+Theorem C05_shape_StepTemplate_carried : forall resolve sigma f n d sc se ps hr dp,
+  leaf n = true -> leaf d = true -> single sc = true -> opt_list se = true ->
+  single ps = true -> single hr = true -> opt_list dp = true ->
+  incl (classes_in sc) carried_classes -> mval_depth sc < f ->
+  incl (classes_in se) carried_classes -> mval_depth se <= f ->
+  incl (classes_in dp) carried_classes -> mval_depth dp <= f ->
+  inst Generated.schema resolve sigma (S f)
+       (MModel "StepTemplate"
+          [("name", n); ("description", d); ("script", sc); ("stepEnvironments", se);
+           ("parameterSpace", ps); ("hostRequirements", hr); ("dependencies", dp)])
+  = do ps' <- inst_elem (inst Generated.schema resolve sigma f) ps;
+    do hr' <- inst_elem (inst Generated.schema resolve sigma f) hr;
+    Ok (MModel "Step" [("name", n); ("description", d); ("script", sc); ("stepEnvironments", se);
+                       ("parameterSpace", ps'); ("hostRequirements", hr'); ("dependencies", dp)]).
+Proof. exact shape_StepTemplate_carried. Qed.
+Print Assumptions C05_shape_StepTemplate_carried.
+
+(* job parameters: {type, description, value = RawParam.<name>} and nothing else; KeyError when the
+   symbol is unbound ([job_parameter]) *)
+Theorem C05_job_parameter_def : forall sigma n t d,
+  job_parameter sigma n t d =
+  match st_lookup sigma ($"RawParam." ++ n) with
+  | Some v => Ok (MModel "JobParameter" [("type", t); ("description", d); ("value", MStr v)])
+  | None => Raise KeyError
+  end.
+Proof. reflexivity. Qed.
+Print Assumptions C05_job_parameter_def.
+
+Theorem C05_shape_JobStringParam : forall resolve sigma f n t ui d mn mx av df,
+  leaf t = true -> leaf d = true ->
+  inst Generated.schema resolve sigma (S f)
+       (MModel "JobStringParameterDefinition"
+          [("name", MStr n); ("type", t); ("userInterface", ui); ("description", d);
+           ("minLength", mn); ("maxLength", mx); ("allowedValues", av); ("default", df)])
+  = job_parameter sigma n t d.
+Proof. exact shape_JobStringParam. Qed.
+Print Assumptions C05_shape_JobStringParam.
+
+Theorem C05_shape_JobPathParam : forall resolve sigma f n t ot dfl ui d mn mx av df,
+  leaf t = true -> leaf d = true ->
+  inst Generated.schema resolve sigma (S f)
+       (MModel "JobPathParameterDefinition"
+          [("name", MStr n); ("type", t); ("objectType", ot); ("dataFlow", dfl); ("userInterface", ui);
+           ("description", d); ("minLength", mn); ("maxLength", mx); ("allowedValues", av); ("default", df)])
+  = job_parameter sigma n t d.
+Proof. exact shape_JobPathParam. Qed.
+Print Assumptions C05_shape_JobPathParam.
+
+Theorem C05_shape_JobIntParam : forall resolve sigma f n t ui d mn mx av df,
+  leaf t = true -> leaf d = true ->
+  inst Generated.schema resolve sigma (S f)
+       (MModel "JobIntParameterDefinition"
+          [("name", MStr n); ("type", t); ("userInterface", ui); ("description", d);
+           ("minValue", mn); ("maxValue", mx); ("allowedValues", av); ("default", df)])
+  = job_parameter sigma n t d.
+Proof. exact shape_JobIntParam. Qed.
+Print Assumptions C05_shape_JobIntParam.
+
+Theorem C05_shape_JobFloatParam : forall resolve sigma f n t ui d mn mx av df,
+  leaf t = true -> leaf d = true ->
+  inst Generated.schema resolve sigma (S f)
+       (MModel "JobFloatParameterDefinition"
+          [("name", MStr n); ("type", t); ("userInterface", ui); ("description", d);
+           ("minValue", mn); ("maxValue", mx); ("allowedValues", av); ("default", df)])
+  = job_parameter sigma n t d.
+Proof. exact shape_JobFloatParam. Qed.
+Print Assumptions C05_shape_JobFloatParam.
+
+(* task parameters: name dropped; range resolved (itemwise for a list); target class *)
+Theorem C05_shape_IntTaskParam_expr : forall resolve sigma f nm t s,
+  leaf t = true ->
+  inst Generated.schema resolve sigma (S f)
+       (MModel "IntTaskParameterDefinition" [("name", nm); ("type", t); ("range", MFmt s)])
+  = do r <- resolve sigma s;
+    Ok (MModel "RangeExpressionTaskParameterDefinition" [("type", t); ("range", MStr r)]).
+Proof. exact shape_IntTaskParam_expr. Qed.
+Print Assumptions C05_shape_IntTaskParam_expr.
+
+Theorem C05_shape_IntTaskParam_list : forall resolve sigma f nm t items,
+  leaf t = true ->
+  inst Generated.schema resolve sigma (S f)
+       (MModel "IntTaskParameterDefinition" [("name", nm); ("type", t); ("range", MList items)])
+  = do l <- mapM (res_elem resolve sigma (inst Generated.schema resolve sigma f)) items;
+    Ok (MModel "IntRangeListTaskParameterDefinition" [("type", t); ("range", MList l)]).
+Proof. exact shape_IntTaskParam_list. Qed.
+Print Assumptions C05_shape_IntTaskParam_list.
+
+Theorem C05_shape_TaskParam : forall resolve sigma f c nm t items,
+  In c ["FloatTaskParameterDefinition"; "StringTaskParameterDefinition"; "PathTaskParameterDefinition"] ->
+  leaf t = true ->
+  inst Generated.schema resolve sigma (S f)
+       (MModel c [("name", nm); ("type", t); ("range", MList items)])
+  = do l <- mapM (res_elem resolve sigma (inst Generated.schema resolve sigma f)) items;
+    Ok (MModel (if String.eqb c "FloatTaskParameterDefinition"
+                then "FloatRangeListTaskParameterDefinition"
+                else "RangeListTaskParameterDefinition") [("type", t); ("range", MList l)]).
+Proof. exact shape_TaskParam. Qed.
+Print Assumptions C05_shape_TaskParam.
+
+Theorem C05_shape_ParamSpace : forall resolve sigma f tpd cb,
+  opt_list tpd = true -> leaf cb = true ->
+  inst Generated.schema resolve sigma (S f)
+       (MModel "StepParameterSpaceDefinition" [("taskParameterDefinitions", tpd); ("combination", cb)])
+  = do t <- keyed (inst Generated.schema resolve sigma f) "name" tpd;
+    Ok (MModel "StepParameterSpace" [("taskParameterDefinitions", t); ("combination", cb)]).
+Proof. exact shape_ParamSpace. Qed.
+Print Assumptions C05_shape_ParamSpace.
+
+Theorem C05_shape_Amount : forall resolve sigma f s a b,
+  leaf a = true -> leaf b = true ->
+  inst Generated.schema resolve sigma (S f)
+       (MModel "AmountRequirementTemplate" [("name", MFmt s); ("min", a); ("max", b)])
+  = do r <- resolve sigma s;
+    Ok (MModel "AmountRequirement" [("name", MStr r); ("min", a); ("max", b)]).
+Proof. exact shape_Amount. Qed.
+Print Assumptions C05_shape_Amount.
+
+Theorem C05_shape_Attribute : forall resolve sigma f s any all,
+  opt_list any = true -> opt_list all = true ->
+  inst Generated.schema resolve sigma (S f)
+       (MModel "AttributeRequirementTemplate" [("name", MFmt s); ("anyOf", any); ("allOf", all)])
+  = do r <- resolve sigma s;
+    do a <- res_elems resolve sigma (inst Generated.schema resolve sigma f) any;
+    do b <- res_elems resolve sigma (inst Generated.schema resolve sigma f) all;
+    Ok (MModel "AttributeRequirement" [("name", MStr r); ("anyOf", a); ("allOf", b)]).
+Proof. exact shape_Attribute. Qed.
+Print Assumptions C05_shape_Attribute.
+
+Theorem C05_shape_HostReq : forall resolve sigma f am at_,
+  opt_list am = true -> opt_list at_ = true ->
+  inst Generated.schema resolve sigma (S f)
+       (MModel "HostRequirementsTemplate" [("amounts", am); ("attributes", at_)])
+  = do a <- elems (inst Generated.schema resolve sigma f) am;
+    do b <- elems (inst Generated.schema resolve sigma f) at_;
+    Ok (MModel "HostRequirements" [("amounts", a); ("attributes", b)]).
+Proof. exact shape_HostReq. Qed.
+Print Assumptions C05_shape_HostReq.
+
+(* list -> dictionary: with distinct keys the dictionary lists (key, instantiated item) in list order *)
+Theorem C05_keyed_distinct : forall rec kf items kys,
+  Forall2 (fun item ky => key_of item kf = Ok (fst ky) /\ inst_elem rec item = Ok (snd ky)) items kys ->
+  NoDup (map fst kys) ->
+  keyed rec kf (MList items) = Ok (MDict kys).
+Proof. exact keyed_distinct. Qed.
+Print Assumptions C05_keyed_distinct.
+
+(* ------------------------------------------------------------------ the symbol table *)
+
+(* [vals] = (name, type, final value) of the job parameters, in order.
+   RawParam.<n> is bound for every parameter; Param.<n> iff the parameter is not a PATH; both to the
+   final value; no other name is bound. *)
+Theorem C05_symtab : forall vals,
+  (forall n, st_lookup (symtab_of vals) ($"RawParam." ++ n) = option_map v_value (first_named n vals))
+  /\ (forall n, st_lookup (symtab_of vals) ($"Param." ++ n)
+               = option_map v_value (first_named n (filter (fun e => negb (is_path e)) vals)))
+  /\ (NoDup (map v_name vals) ->
+      forall n, st_lookup (symtab_of vals) ($"Param." ++ n)
+                = match first_named n vals with
+                  | Some e => if is_path e then None else Some (v_value e)
+                  | None => None
+                  end)
+  /\ (forall k v, st_lookup (symtab_of vals) k = Some v ->
+        exists e, In e vals /\
+                  (k = $"RawParam." ++ v_name e \/ (k = $"Param." ++ v_name e /\ is_path e = false))).
+Proof. exact symtab_facts. Qed.
+Print Assumptions C05_symtab.
+
+(* ------------------------------------------------------------------ no re-expansion *)
+
+(* the resolver create_job uses, in terms of the format-string model of C16 *)
+Theorem C05_fs_resolve_def : forall classify sigma s,
+  fs_resolve classify sigma s = match mk classify s with
+                                | Ok f => FormatStr.resolve sigma f
+                                | Raise e => Raise e
+                                end.
+Proof. reflexivity. Qed.
+Print Assumptions C05_fs_resolve_def.
+
+(* the resolved text is the one-pass substitution computed from the decomposition
+   s = L0 {{E1}} L1 ... {{En}} Ln of the ORIGINAL string: L0 sigma(E1) L1 ... sigma(En) Ln.
+   [spec_resolve] never looks at a substituted value, so a value containing "{{...}}" is not expanded *)
+Theorem C05_no_reexpand : forall classify, ascii_ok classify = true ->
+  forall s segs last sigma, Decomp classify s segs last ->
+  fs_resolve classify sigma s = match spec_resolve classify sigma segs last with
+                                | Some r => Ok r
+                                | None => Raise FormatStringError
+                                end.
+Proof. exact fs_resolve_single_pass. Qed.
+Print Assumptions C05_no_reexpand.
+
+Theorem C05_no_reexpand_bound : forall classify, ascii_ok classify = true ->
+  forall s segs last sigma, Decomp classify s segs last ->
+  (forall n, In n (refs classify segs) -> st_lookup sigma n <> None) ->
+  exists r, spec_resolve classify sigma segs last = Some r /\ fs_resolve classify sigma s = Ok r.
+Proof. exact fs_resolve_bound. Qed.
+Print Assumptions C05_no_reexpand_bound.
+
+Theorem C05_resolve_errors : forall classify, ascii_ok classify = true ->
+  forall s sigma e, fs_resolve classify sigma s = Raise e -> e = FormatStringError.
+Proof. exact fs_resolve_errors. Qed.
+Print Assumptions C05_resolve_errors.
+
+(* the value [inst] stores in a resolved field: plain text, the one-pass substitution *)
+Theorem C05_resolved_value : forall classify, ascii_ok classify = true ->
+  forall s segs last sigma rec, Decomp classify s segs last ->
+  res_elem (fs_resolve classify) sigma rec (MFmt s)
+  = match spec_resolve classify sigma segs last with
+    | Some r => Ok (MStr r)
+    | None => Raise FormatStringError
+    end.
+Proof. exact res_elem_single_pass. Qed.
+Print Assumptions C05_resolved_value.
+
+(* ================================================================== non-vacuity *)
+
+Definition R := fs_resolve ascii_class.
+
+Example ascii_class_ok : ascii_ok ascii_class = true.
+Proof. vm_compute. reflexivity. Qed.
+
+Definition ex_action (cmd : string) : mval :=
+  MModel "Action" [("command", MFmt $cmd); ("args", MList [MFmt $"{{Task.Param.i}}"; MFmt $"{{Param.S}}"]);
+                   ("timeout", MInt 5); ("cancelation", MModel "CancelationMethodTerminate" [("mode", MStr $"TERMINATE")])].
+Definition ex_script : mval :=
+  MModel "StepScript"
+    [("actions", MModel "StepActions" [("onRun", ex_action "echo {{Param.S}} {{Task.File.f}}")]);
+     ("embeddedFiles", MList [MModel "EmbeddedFileText"
+                                [("name", MStr $"f"); ("type", MStr $"TEXT"); ("data", MFmt $"{{RawParam.P}}");
+                                 ("filename", MNone); ("runnable", MNone)]])].
+Definition ex_env : mval :=
+  MModel "Environment"
+    [("name", MStr $"e"); ("script", MNone);
+     ("variables", MDict [($"V", MFmt $"{{Param.S}}"); ($"name", MFmt $"{{Param.I}}")]);
+     ("description", MNone)].
+
+(* hypotheses of C05_trivial_identity / C05_script_unchanged *)
+Example C05_script_unchanged_nonvacuous :
+  incl (classes_in ex_script) carried_classes /\ mval_depth ex_script < 10
+  /\ incl (classes_in ex_env) carried_classes /\ mval_depth ex_env < 10
+  /\ inst Generated.schema R [] 10 ex_script = Ok ex_script
+  /\ inst Generated.schema R [] 10 ex_env = Ok ex_env.
+Proof.
+  assert (H1 : incl (classes_in ex_script) carried_classes).
+  { intros c Hc. vm_compute in Hc. vm_compute. intuition. }
+  assert (H2 : incl (classes_in ex_env) carried_classes).
+  { intros c Hc. vm_compute in Hc. vm_compute. intuition. }
+  assert (D1 : mval_depth ex_script < 10) by (vm_compute; repeat constructor).
+  assert (D2 : mval_depth ex_env < 10) by (vm_compute; repeat constructor).
+  split; [exact H1|]. split; [exact D1|]. split; [exact H2|]. split; [exact D2|]. split.
+  - apply C05_script_unchanged; assumption.
+  - apply C05_script_unchanged; assumption.
+Qed.
+
+Example C05_trivial_identity_nonvacuous :
+  (forall c, In c (classes_in ex_script) -> jcm_is_trivial (jcm_of Generated.schema c) = true).
+Proof. intros c Hc. vm_compute in Hc. intuition; subst c; vm_compute; reflexivity. Qed.
+
+(* a two-step job template instance with one parameter of each type *)
+Definition ex_params : mval :=
+  MList [
+    MModel "JobStringParameterDefinition"
+      [("name", MStr $"S"); ("type", MStr $"STRING"); ("userInterface", MNone); ("description", MStr $"a string");
+       ("minLength", MInt 1); ("maxLength", MNone); ("allowedValues", MNone); ("default", MStr $"d")];
+    MModel "JobPathParameterDefinition"
+      [("name", MStr $"P"); ("type", MStr $"PATH"); ("objectType", MStr $"FILE"); ("dataFlow", MStr $"IN");
+       ("userInterface", MNone); ("description", MNone); ("minLength", MNone); ("maxLength", MNone);
+       ("allowedValues", MNone); ("default", MNone)];
+    MModel "JobIntParameterDefinition"
+      [("name", MStr $"I"); ("type", MStr $"INT"); ("userInterface", MNone); ("description", MNone);
+       ("minValue", MInt 0); ("maxValue", MInt 9); ("allowedValues", MNone); ("default", MInt 2)];
+    MModel "JobFloatParameterDefinition"
+      [("name", MStr $"F"); ("type", MStr $"FLOAT"); ("userInterface", MNone); ("description", MNone);
+       ("minValue", MNone); ("maxValue", MNone); ("allowedValues", MList [MDec 15 (-1)]); ("default", MNone)] ].
+
+Definition ex_space : mval :=
+  MModel "StepParameterSpaceDefinition"
+    [("taskParameterDefinitions",
+      MList [MModel "IntTaskParameterDefinition" [("name", MStr $"i"); ("type", MStr $"INT"); ("range", MFmt $"1-{{Param.I}}")];
+             MModel "IntTaskParameterDefinition" [("name", MStr $"k"); ("type", MStr $"INT"); ("range", MList [MInt 7; MFmt $"{{Param.I}}"])];
+             MModel "FloatTaskParameterDefinition" [("name", MStr $"x"); ("type", MStr $"FLOAT"); ("range", MList [MDec 25 (-1); MFmt $"{{Param.F}}"])];
+             MModel "StringTaskParameterDefinition" [("name", MStr $"s"); ("type", MStr $"STRING"); ("range", MList [MFmt $"a{{Param.S}}"])];
+             MModel "PathTaskParameterDefinition" [("name", MStr $"p"); ("type", MStr $"PATH"); ("range", MList [MFmt $"{{RawParam.P}}/x"])]]);
+     ("combination", MStr $"(i,k) * x * s * p")].
+
+Definition ex_hostreq : mval :=
+  MModel "HostRequirementsTemplate"
+    [("amounts", MList [MModel "AmountRequirementTemplate" [("name", MFmt $"amount.{{Param.S}}"); ("min", MDec 1 0); ("max", MNone)]]);
+     ("attributes", MList [MModel "AttributeRequirementTemplate"
+                             [("name", MFmt $"attr.worker.os.family"); ("anyOf", MList [MFmt $"{{Param.S}}"; MFmt $"linux"]); ("allOf", MNone)]])].
+
+Definition ex_template : mval :=
+  MModel "JobTemplate"
+    [("specificationVersion", MStr $"jobtemplate-2023-09");
+     ("name", MFmt $"job {{Param.S}} {{RawParam.P}}");
+     ("steps", MList [
+        MModel "StepTemplate"
+          [("name", MStr $"a"); ("description", MStr $"first {{Param.S}}"); ("script", ex_script);
+           ("stepEnvironments", MList [ex_env]); ("parameterSpace", ex_space); ("hostRequirements", ex_hostreq);
+           ("dependencies", MNone)];
+        MModel "StepTemplate"
+          [("name", MStr $"b"); ("description", MNone); ("script", ex_script);
+           ("stepEnvironments", MNone); ("parameterSpace", MNone); ("hostRequirements", MNone);
+           ("dependencies", MList [MModel "StepDependency" [("dependsOn", MStr $"a")]])]]);
+     ("description", MStr $"d {{Param.S}}");
+     ("parameterDefinitions", ex_params);
+     ("jobEnvironments", MList [ex_env]);
+     ("schemaStr", MStr $"http://x")].
+
+(* the value of S looks like a reference: it must not be expanded again *)
+Definition ex_vals : list (str * str * str) :=
+  [($"S", $"STRING", $"{{Param.I}}"); ($"P", $"PATH", $"/tmp"); ($"I", $"INT", $"3"); ($"F", $"FLOAT", $"1.5")].
+
+Definition ex_job : mval :=
+  MModel "Job"
+    [("name", MStr $"job {{Param.I}} /tmp");
+     ("steps", MList [
+        MModel "Step"
+          [("name", MStr $"a"); ("description", MStr $"first {{Param.S}}"); ("script", ex_script);
+           ("stepEnvironments", MList [ex_env]);
+           ("parameterSpace",
+            MModel "StepParameterSpace"
+              [("taskParameterDefinitions",
+                MDict [($"i", MModel "RangeExpressionTaskParameterDefinition" [("type", MStr $"INT"); ("range", MStr $"1-3")]);
+                       ($"k", MModel "IntRangeListTaskParameterDefinition" [("type", MStr $"INT"); ("range", MList [MInt 7; MStr $"3"])]);
+                       ($"x", MModel "FloatRangeListTaskParameterDefinition" [("type", MStr $"FLOAT"); ("range", MList [MDec 25 (-1); MStr $"1.5"])]);
+                       ($"s", MModel "RangeListTaskParameterDefinition" [("type", MStr $"STRING"); ("range", MList [MStr $"a{{Param.I}}"])]);
+                       ($"p", MModel "RangeListTaskParameterDefinition" [("type", MStr $"PATH"); ("range", MList [MStr $"/tmp/x"])])]);
+               ("combination", MStr $"(i,k) * x * s * p")]);
+           ("hostRequirements",
+            MModel "HostRequirements"
+              [("amounts", MList [MModel "AmountRequirement" [("name", MStr $"amount.{{Param.I}}"); ("min", MDec 1 0); ("max", MNone)]]);
+               ("attributes", MList [MModel "AttributeRequirement"
+                                       [("name", MStr $"attr.worker.os.family"); ("anyOf", MList [MStr $"{{Param.I}}"; MStr $"linux"]); ("allOf", MNone)]])]);
+           ("dependencies", MNone)];
+        MModel "Step"
+          [("name", MStr $"b"); ("description", MNone); ("script", ex_script);
+           ("stepEnvironments", MNone); ("parameterSpace", MNone); ("hostRequirements", MNone);
+           ("dependencies", MList [MModel "StepDependency" [("dependsOn", MStr $"a")]])]]);
+     ("description", MStr $"d {{Param.S}}");
+     ("parameters",
+      MDict [($"S", MModel "JobParameter" [("type", MStr $"STRING"); ("description", MStr $"a string"); ("value", MStr $"{{Param.I}}")]);
+             ($"P", MModel "JobParameter" [("type", MStr $"PATH"); ("description", MNone); ("value", MStr $"/tmp")]);
+             ($"I", MModel "JobParameter" [("type", MStr $"INT"); ("description", MNone); ("value", MStr $"3")]);
+             ($"F", MModel "JobParameter" [("type", MStr $"FLOAT"); ("description", MNone); ("value", MStr $"1.5")])]);
+     ("jobEnvironments", MList [ex_env])].
+
+Example C05_example_job :
+  inst Generated.schema R (symtab_of ex_vals) (S (mval_depth ex_template)) ex_template = Ok ex_job.
+Proof. vm_compute. reflexivity. Qed.
+
+(* the hypotheses of the shape theorems hold of its parts *)
+Example C05_shape_JobTemplate_nonvacuous :
+  exists sv s st d pd je ss,
+    ex_template = MModel "JobTemplate"
+                    [("specificationVersion", sv); ("name", MFmt s); ("steps", st); ("description", d);
+                     ("parameterDefinitions", pd); ("jobEnvironments", je); ("schemaStr", ss)]
+    /\ opt_list st = true /\ leaf d = true /\ opt_list pd = true /\ opt_list je = true
+    /\ incl (classes_in je) (trivial_classes Generated.schema).
+Proof.
+  do 7 eexists. split; [reflexivity|]. repeat split.
+  intros c Hc. vm_compute in Hc. vm_compute. intuition.
+Qed.
+
+Example C05_shape_StepTemplate_carried_nonvacuous :
+  leaf (MStr $"a") = true /\ leaf (MStr $"first {{Param.S}}") = true /\ single ex_script = true
+  /\ opt_list (MList [ex_env]) = true /\ single ex_space = true /\ single ex_hostreq = true
+  /\ opt_list MNone = true
+  /\ incl (classes_in ex_script) carried_classes /\ mval_depth ex_script < 8
+  /\ incl (classes_in (MList [ex_env])) carried_classes /\ mval_depth (MList [ex_env]) <= 8
+  /\ incl (classes_in MNone) carried_classes /\ mval_depth MNone <= 8.
+Proof.
+  repeat split; try (vm_compute; repeat constructor; fail);
+    intros c Hc; vm_compute in Hc; vm_compute; intuition.
+Qed.
+
+Example C05_shape_params_nonvacuous :
+  leaf (MStr $"STRING") = true /\ leaf MNone = true /\ opt_list ex_params = true
+  /\ In "PathTaskParameterDefinition"
+        ["FloatTaskParameterDefinition"; "StringTaskParameterDefinition"; "PathTaskParameterDefinition"].
+Proof. repeat split. simpl. auto. Qed.
+
+(* unbound symbol: KeyError *)
+Example C05_job_param_unbound :
+  inst Generated.schema R [] 3
+       (MModel "JobIntParameterDefinition"
+          [("name", MStr $"I"); ("type", MStr $"INT"); ("userInterface", MNone); ("description", MNone);
+           ("minValue", MInt 0); ("maxValue", MInt 9); ("allowedValues", MNone); ("default", MInt 2)])
+  = Raise KeyError.
+Proof. vm_compute. reflexivity. Qed.
+
+Definition ex_param_dict : list (str * mval) :=
+  [($"S", MModel "JobParameter" [("type", MStr $"STRING"); ("description", MStr $"a string"); ("value", MStr $"{{Param.I}}")]);
+   ($"P", MModel "JobParameter" [("type", MStr $"PATH"); ("description", MNone); ("value", MStr $"/tmp")]);
+   ($"I", MModel "JobParameter" [("type", MStr $"INT"); ("description", MNone); ("value", MStr $"3")]);
+   ($"F", MModel "JobParameter" [("type", MStr $"FLOAT"); ("description", MNone); ("value", MStr $"1.5")])].
+
+Example C05_keyed_distinct_nonvacuous :
+  Forall2 (fun item ky => key_of item "name" = Ok (fst ky)
+                          /\ inst_elem (inst Generated.schema R (symtab_of ex_vals) 5) item = Ok (snd ky))
+          (match ex_params with MList l => l | _ => [] end) ex_param_dict
+  /\ NoDup (map fst ex_param_dict)
+  /\ keyed (inst Generated.schema R (symtab_of ex_vals) 5) "name" ex_params = Ok (MDict ex_param_dict).
+Proof.
+  assert (H1 : Forall2 (fun item ky => key_of item "name" = Ok (fst ky)
+                          /\ inst_elem (inst Generated.schema R (symtab_of ex_vals) 5) item = Ok (snd ky))
+          (match ex_params with MList l => l | _ => [] end) ex_param_dict).
+  { cbv [ex_params ex_param_dict].
+    repeat (apply Forall2_cons; [split; vm_compute; reflexivity|]). apply Forall2_nil. }
+  assert (H2 : NoDup (map fst ex_param_dict)).
+  { cbv [ex_param_dict map fst].
+    repeat (apply NoDup_cons; [vm_compute; intuition discriminate|]). apply NoDup_nil. }
+  split; [exact H1|]. split; [exact H2|].
+  apply (C05_keyed_distinct _ "name" _ ex_param_dict H1 H2).
+Qed.
+
+Example C05_symtab_nonvacuous :
+  NoDup (map v_name ex_vals)
+  /\ st_lookup (symtab_of ex_vals) ($"RawParam." ++ $"P") = Some $"/tmp"
+  /\ st_lookup (symtab_of ex_vals) ($"Param." ++ $"P") = None
+  /\ st_lookup (symtab_of ex_vals) ($"Param." ++ $"S") = Some $"{{Param.I}}"
+  /\ map fst (symtab_of ex_vals)
+     = [$"Param.S"; $"RawParam.S"; $"RawParam.P"; $"Param.I"; $"RawParam.I"; $"Param.F"; $"RawParam.F"].
+Proof.
+  split; [|vm_compute; repeat split].
+  repeat (constructor; [vm_compute; intuition discriminate|]). constructor.
+Qed.
+
+(* "{{Param.A}}-{{Param.B}}" with A = "{{Param.B}}", B = "x": the substituted text is not rescanned *)
+Example C05_no_reexpand_nonvacuous :
+  (exists segs last, Decomp ascii_class $"{{Param.A}}-{{Param.B}}" segs last)
+  /\ R [($"Param.A", $"{{Param.B}}"); ($"Param.B", $"x")] $"{{Param.A}}-{{Param.B}}" = Ok $"{{Param.B}}-x"
+  /\ R [($"Param.B", $"x")] $"{{Param.A}}-{{Param.B}}" = Raise FormatStringError.
+Proof.
+  split; [|split; vm_compute; reflexivity].
+  apply (FormatStrProofs.mk_accept_iff ascii_class ascii_class_ok). vm_compute. eauto.
+Qed.
